@@ -1,4 +1,2 @@
-From Coq Require Import ZArith NArith List Bool String.
-From Falcon.lib Require Import PyStr.
-From Falcon.C15 Require Import Model Spec.
-Import ListNotations.
+(* C15 — lemmas live in ProofsMap / ProofsCookie / ProofsUri; this file re-exports them. *)
+From Falcon.C15 Require Export ProofsMap ProofsCookie ProofsUri.
